@@ -1,6 +1,7 @@
 //! Property registry.
 
 pub mod common;
+pub mod p_meta;
 pub mod p_model;
 
 use crate::engine::{CaseRec, Local, Runner, Violation};
@@ -33,8 +34,26 @@ macro_rules! model_prop {
     };
 }
 
+macro_rules! meta_prop {
+    ($id:expr, $run:path, $check:path, $rule:expr, $assume:expr) => {
+        PropDef { id: $id, run: $run, check: $check, rule: $rule, assumptions: $assume, max_buf: 80_000 }
+    };
+}
+
+const META_ASSUME: &[&str] = &[
+    "oracle is model-free: a metamorphic/differential relation or predicates transcribed from the statement",
+    "x86-64 only; scanner backend = whatever the host CPU's runtime detection selects unless the phase forces one through hook H2",
+];
+
 pub fn all() -> Vec<PropDef> {
     vec![
+        meta_prop!("C02", p_meta::run_c02, p_meta::check_c02, "base buffers of all four kinds (G1 grammar-derived with mutations, bounded-exhaustive header strings under every option combination, long fields of every length 0..=80) x every split point k (all k for len<=400, 64 spread + last 16 beyond), each prefix copied into its own exact-length buffer ending at a guard page. Oracle: with k* the first non-Partial prefix, every longer prefix gives the same Err, or the same Complete(n) with identical fields/headers (as offsets into the base); k* >= n; fields reported with Partial equal those of the final Complete. Chunked re-parsing ends in the one-shot answer because every prefix is covered. Non-trivial = k* >= 8; distinct by hash of (entry,cfg,cap,base)", META_ASSUME),
+        meta_prop!("C03", p_meta::run_c03, p_meta::check_c03, "G1 messages with trailing bodies (which contain CRLFCRLF and header-looking lines), lenient-weighted messages, bounded-exhaustive header strings x option combinations; all 128 configs, capacities, entry points. Oracle: independent LF-split scan for the first empty line ('' or CR) after the start line; Complete(n) must end exactly there (n <= len); Partial must not coexist with a strictly empty line; chunk size: n = 2 + first CRLF, Partial => no CRLF. Non-trivial = Complete with >=1 header / >1 line / trailing bytes, or Partial with >=1 complete line; distinct by hash of (entry,cfg,cap,buffer)", META_ASSUME),
+        meta_prop!("C04", p_meta::run_c04, p_meta::check_c04, "part (a): G1 messages under every usable runtime backend (hook H2), lenient-weighted messages, bounded-exhaustive header strings; all outcomes. Oracle: pointer arithmetic — every non-empty returned slice lies in [buf,buf+len), on Complete(n) inside buf[..n] and in strictly increasing non-overlapping order method<path|reason<name0<value0<.... Non-trivial = >=1 header with non-empty value, or Partial/Err with a start-line field set; distinct by hash of (entry,cfg,cap,backend,buffer). part (b) (compile-time corpus) is reported in coverage.compile_corpus", META_ASSUME),
+        meta_prop!("C05", p_meta::run_c05, p_meta::check_c05, "256 byte values x every position of 12 bases (each header option exercised) x 4 configs, lane phases 0..=70/140 x 256 values x 6 elements (target, reason, name, value, folded value, ignored-line tail), bounded-exhaustive header strings x option combinations, G1 default- and lenient-weighted messages. Oracle: predicates transcribed from the statement on every Complete (tchar method/names, target class + UTF-8, version, code re-read from the buffer, reason/value classes, trimming, fold rules, no NUL / bare CR in buf[..n]) and UTF-8 validity of every &str on every outcome. Non-trivial = Complete with the swept byte inside buf[..n], or a field containing obs-text / HTAB / a fold; distinct by hash of (entry,cfg,cap,buffer)", META_ASSUME),
+        meta_prop!("C15", p_meta::run_c15, p_meta::check_c15, "part 1: mostly-valid G1 messages and bounded-exhaustive header strings; each default-Complete buffer is re-parsed under all 127 other configs and must give the identical normalised result (sole exception: reason with leading SP stripped under allow_multiple_spaces_in_response_status_delimiters). part 2: any buffer x config pairs differing only in other-kind options (random pairs on G1, all pairs on header strings) must agree on status, fields and headers. Non-trivial = default-Complete with >=1 header (part 1) / result past the first start-line field (part 2); distinct by hash of (entry,cfg,cfg2,cap,buffer)", META_ASSUME),
+        meta_prop!("C16", p_meta::run_c16, p_meta::check_c16, "G1 messages x configs x capacities around k: Request::parse / ParserConfig::parse_request / the two uninit variants (and the response entry points; non-default configs compare the two config-taking ones) must agree on status, fields, headers and written array slots; parse_headers(h) vs 6 request/response start lines + h under the default config and equal capacity (offset shifted by the start-line length), on G1 header blocks and bounded-exhaustive header strings x capacities {0,1,2,8}. Non-trivial = buffer has a colon and the parse got past the start line; distinct by hash of (entry,cfg,cap,buffer)", META_ASSUME),
+        meta_prop!("C17", p_meta::run_c17, p_meta::check_c17, "G1 blocks with k=0..12 lines x capacity around k x 9 entry points x configs, and k=0..6 structured lines x every capacity 0..=8 x 128 configs x 9 entry points x 3 tails; arrays pre-filled with sentinel headers (initialised entries) or 0xA5 poison (uninit entries), abutting a guard page, canary on the other side. Oracle: with m = slots written under capacity max(64,lines+8): m<=N => identical outcome, m>N => Err(TooManyHeaders); on Complete headers.len() = slots written = prefix 0..len, other slots bit-identical, exposed elements inside the buffer; after Partial/Err `headers` is (ptr,len)-identical to before the call and every changed slot holds a header from this buffer. Non-trivial = >=1 header line stored and capacity <= m+1; distinct by hash of (entry,cfg,cap,buffer)", META_ASSUME),
         model_prop!("C06", p_model::Which::C06, "request lines: byte sweeps (256 values x every position x 14 bases x overwrite/insert), targets of every length with bad bytes at every position, bounded-exhaustive token strings, G1 random with mutations; oracle = model M (verdict class, offset, method/path/version ranges, headers). Non-trivial = the model's first decisive event is at or after the target; distinct by hash of (entry,cfg,cap,buffer)"),
         model_prop!("C07", p_model::Which::C07, "status lines: byte sweeps, all 1000 codes x 3 reason shapes, reasons of every length 0..=70 with 16 class representatives at every position, bounded-exhaustive token strings, G1 random; oracle = model M (verdict class, offset, version/code/reason, headers). Non-trivial = the model reaches the status code; distinct by hash of (entry,cfg,cap,buffer)"),
         model_prop!("C08", p_model::Which::C08, "header blocks under the default config via parse_headers, Request::parse and Response::parse: bounded-exhaustive strings over an 11-symbol class alphabet after 8 resume contexts, 256-value sweeps over 16 bases, lane phases 0..=70/100 x 256 values x 3 syntactic positions, G1 random; oracle = model M (verdict class, offset, exact ordered (name,value) ranges). Non-trivial = at least one header line complete or the first decisive event lies after the first colon; distinct by hash of (entry,cfg,cap,buffer)"),
